@@ -43,6 +43,7 @@ func checkC17(c *core.Ctx) {
 	// "a read at time t returns the metadata as it was at t": the bound on the history tables is
 	// the inclusive `date <= ?PIT` (temporal predicate typing shared with C05)
 	ruleTemporalClauses(c)
+	ruleHistoryLatestRevision(c)
 }
 
 func ruleMetadataMerge(c *core.Ctx) {
